@@ -358,6 +358,8 @@ var smtFunRet = map[string]Sort{
 	"ktag": SInt, "pfx": SBool, "krange": SBool, "sfx": SBool, "klt": SBool,
 	"acc_str": SStr, "val_str": SStr, "acc_of": SBytes, "val_of": SBytes, "acc_ok": SBool, "val_ok": SBool,
 	"modaddr": SBytes, "blocked": SBool, "denom_ok": SBool, "ismod": SBool,
+	"stk_exists": SBool, "stk_status": SInt, "stk_tokens": SInt, "stk_dshares": SDec, "stk_jailed": SBool,
+	"stk_hasdel": SBool, "stk_delshares": SDec, "stk_total_bonded": SInt,
 }
 
 func (ev *Evaluator) call(e *Expr) Val {
@@ -421,6 +423,16 @@ func (ev *Evaluator) call(e *Expr) Val {
 	case "dec":
 		t := targs()[0]
 		return decOp("dofint", t)
+	case "tsub":
+		// time.Time.Sub: saturating difference
+		t := targs()
+		d := Sub(t[0], t[1])
+		maxd := T(SInt, "9223372036854775807")
+		mind := T(SInt, "(- 9223372036854775808)")
+		return Ite(Gt(d, maxd), maxd, Ite(Lt(d, mind), mind, d))
+	case "u64":
+		t := targs()[0]
+		return Ite(Ge(t, IntLit(0)), t, Add(t, T(SInt, "18446744073709551616")))
 	case "now":
 		E.D.Const("now", SInt)
 		return nowTerm()
@@ -483,7 +495,11 @@ func (ev *Evaluator) call(e *Expr) Val {
 		}
 		t, ok := m.G[e.Args[0].Name]
 		if !ok {
-			ev.fail("no state component %s", e.Args[0].Name)
+			gs, known := ghostSorts[e.Args[0].Name]
+			if !known {
+				ev.fail("no state component %s", e.Args[0].Name)
+			}
+			t = m.GetG(e.Args[0].Name, gs)
 		}
 		return t
 	case "result":
@@ -530,6 +546,9 @@ func (ev *Evaluator) call(e *Expr) Val {
 			E.D.Fun("blocked", []Sort{SBytes}, SBool)
 		case "denom_ok":
 			E.D.Fun("denom_ok", []Sort{SStr}, SBool)
+		}
+		if strings.HasPrefix(e.Name, "stk_") {
+			E.declStaking()
 		}
 		return App(s, e.Name, targs()...)
 	}
